@@ -24,6 +24,11 @@ CLAIMS = {
   'design_ref': 'DESIGN.md section 4 / C20',
   'note': 'Assumed: floats as reals (A-float), time.monotonic non-decreasing, sleep advances the clock, limits >= 1 KiB/s. One recorded known finding (2 obligations, one witness class): after lowering the limit and idling, L + 128 bytes are granted in zero time; the bound with one extra 128-byte chunk is proved. Not decided: fairness among several waiters; bound across k limit changes beyond no-mint.',
  },
+ 'C03': {
+  'text': 'Proof. For each of the 10 state classes x 8 operations x both directions the real method body is executed under the contract precondition (transfer.state is self, lock held): it either returns True after exactly one listener-observable change that is an edge of the pinned graph EDGES, with the lock held, or returns False having written no field, cancelled no task and touched no file. TransferState._wrap_lock is executed for real (every public method ends up behind _with_state_lock), and the wrapper is executed with the lock acquisition as a yield point at which transfer.state is havocked: the body that runs must belong to the CURRENT state (this is the obligation the overlapping-operations window breaks; no test issues two operations concurrently). Lock discipline (only transition() and constructors write Transfer.state; transition() is called only from state methods) is a whole-tree frame scan. Manager abort/queue/pause raise iff refused.',
+  'design_ref': 'DESIGN.md section 4 / C03 and Appendix B',
+  'note': 'Trusted: asyncio.Lock mutual exclusion, cooperative scheduling, inspect.getmembers model, aiofiles.os externs; EDGES table pinned from the documentation and the property statement. One defect found and fixed (0399347).',
+ },
 }
 
 NA_DEFAULT = 'check not built yet (work in progress; see DESIGN.md section 4 for the planned contracts)'
